@@ -136,6 +136,7 @@ class Cfg:
         self.vec_left_array = True        # array/list on the left of vector operators
         self.vec_np_scalar = True         # numpy non-float scalars with vectors / matrices
         self.overlap_dot = True           # dot of two views of the same vector
+        self.ew_ops = True                # operators applied to element-wise results: (x**2)*2, sin(x)+y, -(x**2), (x**2)[i], sum(sin(x))
         for k, v in kw.items():
             setattr(self, k, v)
 
@@ -207,7 +208,23 @@ class G:
         c = [(2, self.leaf), (6, lambda: self.bin(depth)), (4, lambda: self.un(depth))]
         if self.cfg.reductions:
             c.append((4, lambda: self.reduction(depth)))
+            if self.cfg.ew_ops and (self.env["vectors"] or self.env["matrices"]):
+                c.append((1, lambda: self.elem_of_expr(depth)))
         return self.pick(c)
+
+    def elem_of_expr(self, depth):
+        """an element picked out of a vector / matrix *expression*: (x + 1)[i], (x ** 2)[-1], sin(x)[i], (A * 2)[i, j]"""
+        if self.env["matrices"] and self.draw(st.integers(0, 2)) == 0:
+            M = self.M(max(depth - 1, 1), classes=("expr",))
+            if mclass(M) != "expr":
+                M = ["mneg", M]
+            r, c = mshape(M, self.env)
+            if self.draw(st.booleans()):
+                return ["mflat", M, self.draw(st.integers(-r * c, r * c - 1))]
+            return ["melem", M, self.draw(st.integers(-r, r - 1)), self.draw(st.integers(-c, c - 1))]
+        V = self.V(max(depth - 1, 1), classes=("expr", "pow", "un"))
+        n = vsize(V, self.env)
+        return ["elem", V, self.draw(st.integers(-n, n - 1))]
 
     def is_constant_only(self, r):
         from harness.algebras import walk
@@ -265,6 +282,7 @@ class G:
         c = [
             (3, lambda: ["vsum", self.V(d, classes=("var", "expr", "pow", "un"))]),
             (1, lambda: ["vector_sum", self.V(d, classes=("var", "expr"))]),
+            (1, lambda: ["pysum", self.V(d, classes=("var", "expr", "pow", "un") if self.cfg.ew_ops else ("var", "expr"))]),
             (3, lambda: self.dot(d)),
             (1, lambda: ["dotself", self.V(d, classes=("var", "expr")), self.draw(st.sampled_from(["dot", "matmul"]))]),
             (3, lambda: self.lincomb(d)),
@@ -366,6 +384,11 @@ class G:
                         a, b, s = make_slice(self.draw, r, n)
                         return ["col", base, a, b, s, self.draw(st.integers(-cc, cc - 1))]
                     c.append((1, col))
+            if size is None or size == m["c"]:
+                c.append((1, lambda m=m: ["miter", ["mvar", m["name"]], "row", self.draw(st.integers(-m["r"], m["r"] - 1)),
+                                          self.draw(st.sampled_from(["iter", "named"]))]))
+            if size is None or size == m["r"]:
+                c.append((1, lambda m=m: ["miter", ["mvar", m["name"]], "col", self.draw(st.integers(-m["c"], m["c"] - 1)), "named"]))
             if m["r"] == m["c"] and (size is None or m["r"] == size):
                 c.append((1, lambda m=m: ["diag", ["mvar", m["name"]],
                                           self.draw(st.sampled_from(["method", "function"]))]))
@@ -399,6 +422,9 @@ class G:
             if depth > 0:
                 c.append((3, lambda: self.vbin(depth, size)))
                 c.append((1, lambda: ["vneg", self.V(depth - 1, size, ("var", "expr"))]))
+                if self.cfg.ew_ops and self.var_vector_sources(size):
+                    c.append((1, lambda: ["vneg", self.ew_result(size)]))
+                    c.append((1, lambda: ["vfn", self.draw(st.sampled_from(self.cfg.vec_funcs)), self.ew_result(size)]))
                 c.append((1, lambda: ["vfn", self.draw(st.sampled_from(self.cfg.vec_funcs)),
                                       self.V(depth - 1, size, ("expr",))]))
                 c.append((1, lambda: ["vpow", self.V(depth - 1, size, ("expr",)),
@@ -424,10 +450,23 @@ class G:
             items[0] = self.var_leaf()
         return ["vexpr", items]
 
+    def ew_result(self, size):
+        """x ** k or f(x) over a variable-class vector (None if no such vector of that size exists)"""
+        if not self.var_vector_sources(size):
+            return None
+        base = self.pick(self.var_vector_sources(size))
+        if self.draw(st.booleans()):
+            return ["vpow", base, self.draw(st.sampled_from(self.cfg.pow_exps))]
+        return ["vfn", self.draw(st.sampled_from(self.cfg.vec_funcs)), base]
+
     def vbin(self, depth, size):
-        V = self.V(depth - 1, size, ("var", "expr"))
+        V = None
+        if self.cfg.ew_ops and self.draw(st.integers(0, 4)) == 0:
+            V = self.ew_result(size)
+        if V is None:
+            V = self.V(depth - 1, size, ("var", "expr"))
         n = vsize(V, self.env)
-        op = self.draw(st.sampled_from(["+", "-", "*", "/"] + (["**"] if vclass(V) == "expr" else [])))
+        op = self.draw(st.sampled_from(["+", "-", "*", "/"] + (["**"] if vclass(V) != "var" else [])))
         side = self.draw(st.sampled_from(["right", "right", "left"]))
         kinds = ["pyint", "pyfloat", "npfloat64"] + (["npint64", "npint32"] if self.cfg.vec_np_scalar else [])
         ops = [(3, lambda: self.num_operand(kinds))]
